@@ -2,7 +2,7 @@
    * seeded property-BREAKING changes (five rounds; stored as seeded/<id>-<A…J>/), which the target check must catch, and
    * HARMLESS changes (two rounds; stored as harmless/<id>-<A…F>/), on which it must stay silent.
 
-  python -m harness.campaign confirm [--jobs 8] [ids…]   phase A: every change is confirmed in its own scratch worktree of /repo
+  python -m harness.campaign confirm [--jobs 8] [--labels IJ] [ids…]   phase A: every change is confirmed in its own scratch worktree of /repo
         (applies — re-based with --3way where later fix: commits moved its lines —, the repository's test-suite passes with it, its
         demonstration exits 0 without it and 1 / 0 with it).  Touches neither /repo nor the checks; runs in parallel.
   python -m harness.campaign run [ids…]                  phase B: every confirmed change is applied to /repo ITSELF
@@ -164,7 +164,16 @@ def main():
         i = args.index("--jobs")
         jobs = int(args[i + 1])
         args = args[:i] + args[i + 2:]
+    labels = None
+    if "--labels" in args:                     # e.g. --labels IJDEF: only the changes stored under these letters
+        i = args.index("--labels")
+        labels = args[i + 1]
+        args = args[:i] + args[i + 2:]
     ids = [a for a in args if a.startswith("C")] or ALL
+    _changes = changes
+
+    def changes_(ids):
+        return [c for c in _changes(ids) if labels is None or c[2] in labels]
     if mode == "confirm":
         def safe(ch):
             try:
@@ -172,10 +181,10 @@ def main():
             except Exception as ex:
                 return "%s-%s %s: ERROR %s: %s" % (ch[1], ch[2], ch[0], type(ex).__name__, ex)
         with ThreadPoolExecutor(jobs) as ex:
-            for line in ex.map(safe, changes(ids)):
+            for line in ex.map(safe, changes_(ids)):
                 print(line, flush=True)
     elif mode == "run":
-        for ch in changes(ids):
+        for ch in changes_(ids):
             print(run_one(ch), flush=True)
     elif mode == "refresh":
         for pid in ids:
